@@ -390,6 +390,7 @@ class Ctx:
                 input_distribution=dict(self.dist.most_common(60)), exhaustive=self.exhaustive,
                 driver_lines=(self._driver.lines if self._driver else 0), escalated_budget=self.escalated,
                 known_findings_seen=sorted({f['signature'] for f in self.failures if f['signature'] in self.known}),
+                unlisted_failures=sorted({f['signature'] for f in unknown})[:20], broken_obligations=self.broken[:20],
                 **self.extra),
             assumptions=self.assumptions, wall_s=round(time.time() - self.t0, 2), violations=nviol)
         (VERIF / 'evidence').mkdir(exist_ok=True)
